@@ -273,6 +273,7 @@ func vC15GenOp(w *vC15World, kinds []string) vDOp {
 	switch op.Kind {
 	case "provide":
 		op.Cid = vDCid(w.cids[r.Intn(len(w.cids))])
+		op.NoAnnounce = c.Idx%2 == 0 && r.Intn(3) == 0
 	case "putvalue":
 		op.Key = w.keys[r.Intn(len(w.keys))]
 		w.nonce++
@@ -406,8 +407,11 @@ func vC15JudgeRouting(c *vh.Case, n *vDNet, res *vDRes, localW, localL []byte, l
 		if storeA+storeI > 0 {
 			c.Check(storeI == 0, "store-rpcs-on-active-network", "%s: %d %v RPCs on the %s network although the WAN table size was %d", op.Kind, storeI, storeType, inactive, len(res.WRT0))
 		}
+		if op.NoAnnounce {
+			c.Check(len(alog)+len(ilog) == 0, "no-announce-no-rpc", "Provide(announce=false) made %d log entries on the wan and %d on the lan network", len(wlog), len(llog))
+		}
 		if uncancelled {
-			if len(art) > 0 {
+			if len(art) > 0 && !op.NoAnnounce {
 				contacted := len(vC15Requests(alog))
 				for _, d := range dials {
 					if art[d.Peer] {
@@ -416,7 +420,7 @@ func vC15JudgeRouting(c *vh.Case, n *vDNet, res *vDRes, localW, localL []byte, l
 				}
 				c.Check(contacted > 0, "write-reaches-active-network", "%s: the %s table held %d peers but neither a request on its network nor a dial to one of its members was made (err=%v)", op.Kind, active, len(art), res.Err)
 			}
-			if !wanActive && !lanNonEmpty {
+			if !wanActive && !lanNonEmpty && !op.NoAnnounce {
 				c.Check(errors.Is(res.Err, kb.ErrLookupFailure) && len(alog)+len(ilog) == 0, "write-both-empty-lookup-failure", "%s with both tables empty returned %v and made %d RPCs", op.Kind, res.Err, len(alog)+len(ilog))
 			}
 			// local record on the active DHT
@@ -703,8 +707,8 @@ func vC15LogOp(c *vh.Case, n *vDNet, i int, res *vDRes) {
 
 func TestVerif_C15_routing(t *testing.T) {
 	vh.Run(t, vh.Spec{Prop: "C15", Unit: "routing", Quick: 400, Thorough: 16000, CostMs: 25,
-		Rule: "one fake host shared by the WAN and LAN IpfsDHT of dual.New, two simulated networks told apart by the protocol list given to the message-sender builder; PRNG networks (WAN 0-55 peers, LAN 0-19, optional overlap; K in {2,3,5,8,20}, alpha in {1,2,3,10}; each table empty in ~1/3 of the cases; 0-100% failing peers per network by dial/request/silence; latencies 5/50/400 ms per network deciding which DHT answers first; value records valid/invalid/mis-keyed/empty and provider records spread over both networks and both local stores); 4-6 operations per case drawn from Provide, PutValue, GetValue, SearchValue, FindPeer, FindProvidersAsync (1/8 cancelled at a PRNG instant), each judged against the WAN/LAN table sizes read at call time and the two wire logs; failed seeds leave the tables so that later operations of a case see other emptiness combinations; non-trivial = at least one judged write and one judged read with RPCs on some network; distinct by (table emptiness, operation, outcome) sequence",
-		Clauses: []string{"write-routed-by-wan-table", "store-rpcs-on-active-network", "write-reaches-active-network", "write-both-empty-lookup-failure", "write-local-on-active",
+		Rule: "one fake host shared by the WAN and LAN IpfsDHT of dual.New, two simulated networks told apart by the protocol list given to the message-sender builder; PRNG networks (WAN 0-55 peers, LAN 0-19, optional overlap; K in {2,3,5,8,20}, alpha in {1,2,3,10}; each table empty in ~1/3 of the cases; 0-100% failing peers per network by dial/request/silence; latencies 5/50/400 ms per network deciding which DHT answers first; value records valid/invalid/mis-keyed/empty and provider records spread over both networks and both local stores); 4-6 operations per case drawn from Provide (in every second case a third of them with announce=false: local record only, on the DHT the write is routed to), PutValue, GetValue, SearchValue, FindPeer, FindProvidersAsync (1/8 cancelled at a PRNG instant), each judged against the WAN/LAN table sizes read at call time and the two wire logs; failed seeds leave the tables so that later operations of a case see other emptiness combinations; non-trivial = at least one judged write and one judged read with RPCs on some network; distinct by (table emptiness, operation, outcome) sequence",
+		Clauses: []string{"write-routed-by-wan-table", "store-rpcs-on-active-network", "write-reaches-active-network", "write-both-empty-lookup-failure", "write-local-on-active", "no-announce-no-rpc",
 			"getvalue-wan-first", "getvalue-lan-fallback", "getvalue-lan-fallback-on-wan-timeout", "getvalue-none-combined-error", "getvalue-best-of-source", "searchvalue-sound", "searchvalue-improving",
 			"findpeer-union", "findpeer-union-exact", "findpeer-combined-error", "findpeer-no-duplicate-addresses", "findprovs-once-each", "findprovs-at-most-count", "findprovs-sound", "findprovs-count0-complete"}},
 		func(c *vh.Case) {
